@@ -4,7 +4,7 @@
 
     No bound anywhere: the range-list cases are by induction over the list with the running
     target offset generalised, the bit-level facts go through [N.testbit] extensionality. *)
-From BB Require Import Bits Expr Sym Spec Validate Prog Builder Gen.
+From BB Require Import Bits Expr Sym Spec Validate Prog History Builder Gen.
 From Coq Require Import String.
 Open Scope N_scope.
 
@@ -1159,3 +1159,190 @@ End SetterMain.
 
 Print Assumptions gen_getter_correct.
 Print Assumptions gen_setter_correct.
+
+(** ** raw_value() and new_with_raw_value() *)
+
+Lemma storage_is_native W : W <= 128 -> is_native (storage W) = true.
+Proof.
+  intros H. unfold storage. destruct (W <=? 8); [reflexivity|]. destruct (W <=? 16); [reflexivity|].
+  destruct (W <=? 32); [reflexivity|]. destruct (W <=? 64); reflexivity.
+Qed.
+
+Lemma storage_fix W : is_native W = true -> storage W = W.
+Proof. apply storage_native. Qed.
+
+Lemma not_native_lt_storage W : W <= 128 -> W <> storage W -> is_native W = false.
+Proof.
+  intros H Hne. destruct (is_native W) eqn:E; [|reflexivity]. apply storage_native in E. congruence.
+Qed.
+
+Theorem gen_raw_value_correct c W raw :
+  base_ok W = true -> raw < 2 ^ W ->
+  eval c (mk_env W raw 0 (VBool false)) (gen_raw_value (storage W) W) = Ok (VInt (base_ty W) raw).
+Proof.
+  intros HW Hraw. unfold base_ok in HW. assert (H128 : W <= 128) by lia.
+  pose proof (storage_ge W H128) as HWS. unfold gen_raw_value, base_ty.
+  destruct (N.eqb_spec W (storage W)) as [E|E].
+  - cbn [eval mk_env e_S e_raw]. rewrite uty_native; [now rewrite <- E|].
+    rewrite E. now apply storage_is_native.
+  - rewrite (uty_arb W (not_native_lt_storage W H128 E)).
+    rewrite (ev_extract c _ (storage W) W ERaw (ELit TLit 0) (VInt (TU (storage W)) raw) (VInt TLit 0));
+      [|reflexivity|reflexivity].
+    unfold extract_eval. rewrite N.eqb_refl. cbn [andb]. rewrite N.add_0_l.
+    destruct (N.leb_spec W (storage W)); [|lia]. now rewrite bitsN_0_small.
+Qed.
+
+Theorem gen_new_with_raw_value_correct c W r raw :
+  base_ok W = true -> r < 2 ^ W ->
+  eval c (mk_env W raw 0 (VInt (base_ty W) r)) (gen_new_with_raw_value (storage W) W)
+  = Ok (VInt (TU (storage W)) r).
+Proof.
+  intros HW Hr. unfold base_ok in HW. assert (H128 : W <= 128) by lia.
+  pose proof (storage_ge W H128) as HWS. unfold gen_new_with_raw_value, base_ty.
+  destruct (N.eqb_spec W (storage W)) as [E|E].
+  - cbn [eval mk_env e_arg]. rewrite uty_native; [now rewrite <- E|].
+    rewrite E. now apply storage_is_native.
+  - rewrite (uty_arb W (not_native_lt_storage W H128 E)).
+    rewrite (ev_uvalue c _ EArg (VInt (TAU (storage W) W) r)); [|reflexivity].
+    cbn [uvalue_eval]. destruct (N.leb_spec W (storage W)); [reflexivity|lia].
+Qed.
+
+(** ** out-of-range indices (C03): the assert is the first thing every array accessor does *)
+Theorem gen_oob_panics c S f ρ k :
+  f_count f = Some k -> k < 2 ^ 64 -> k <= e_idx ρ -> e_idx ρ < 2 ^ 64 ->
+  eval c ρ (gen_getter S f) = Panic /\ eval c ρ (gen_setter S f) = Panic.
+Proof.
+  intros Hk Hk64 Hi Hi64. unfold gen_getter, gen_setter, with_index_assert. rewrite Hk.
+  split; apply (check_assert_sound k); try assumption; cbn [check_assert usz];
+    rewrite N.eqb_refl; cbn [andb]; destruct (N.ltb_spec k (2 ^ 64)); [reflexivity|lia|reflexivity|lia].
+Qed.
+
+Print Assumptions gen_raw_value_correct.
+
+(** ** a field with distinct bits inside the base is no wider than the base *)
+
+Lemma filter_split_length {A} (p : A -> bool) l :
+  (List.length (filter p l) + List.length (filter (fun x => negb (p x)) l) = List.length l)%nat.
+Proof. induction l as [|a l IH]; [reflexivity|]. cbn [filter]. destruct (p a); cbn [negb List.length]; lia. Qed.
+
+Lemma NoDup_map_of_nat l : NoDup l -> NoDup (map N.of_nat l).
+Proof.
+  induction 1 as [|a l Hn ND IH]; cbn [map]; constructor; [|exact IH].
+  intros Hin. apply in_map_iff in Hin. destruct Hin as (b & Hb & Hin). assert (a = b) by lia. now subst.
+Qed.
+
+Lemma total_le_universe rs : forall U : list N,
+  NoDup U -> NoDupBits rs -> (forall k, covers rs k = true -> In k U) ->
+  (N.to_nat (total rs) <= List.length U)%nat.
+Proof.
+  induction rs as [|[lo n] rs IH]; intros U NU ND Hc; cbn [total]; [lia|].
+  cbn [NoDupBits] in ND. destruct ND as [Hd ND].
+  set (inr := fun k => (lo <=? k) && (k <? lo + n)).
+  pose proof (filter_split_length inr U) as Hsplit.
+  (* the bits of the first range are distinct members of U *)
+  assert (H1 : (N.to_nat n <= List.length (filter inr U))%nat).
+  { set (sq := map N.of_nat (seq (N.to_nat lo) (N.to_nat n))).
+    assert (Hlen : List.length sq = N.to_nat n) by (unfold sq; now rewrite map_length, seq_length).
+    rewrite <- Hlen. apply NoDup_incl_length; [apply NoDup_map_of_nat, seq_NoDup|].
+    intros k Hk. unfold sq in Hk. apply in_map_iff in Hk. destruct Hk as (m & <- & Hm). apply in_seq in Hm.
+    apply filter_In. split.
+    - apply Hc. rewrite covers_cons. cbn [fst snd]. apply orb_true_intro. left. lia.
+    - unfold inr. lia. }
+  (* the rest lives in what is left of U *)
+  assert (H2 : (N.to_nat (total rs) <= List.length (filter (fun x => negb (inr x)) U))%nat).
+  { apply IH; [now apply NoDup_filter|exact ND|]. intros k Ck. apply filter_In. split.
+    - apply Hc. rewrite covers_cons. now rewrite Ck, orb_true_r.
+    - unfold inr. destruct (N.leb_spec lo k); destruct (N.ltb_spec k (lo + n)); try reflexivity.
+      rewrite Hd in Ck by lia. discriminate. }
+  lia.
+Qed.
+
+Theorem total_le_base rs W : NoDupBits rs -> max_end rs <= W -> total rs <= W.
+Proof.
+  intros ND Hm.
+  pose proof (total_le_universe rs (map N.of_nat (seq 0 (N.to_nat W))) (NoDup_map_of_nat _ (seq_NoDup _ _)) ND) as H.
+  rewrite map_length, seq_length in H. assert (N.to_nat (total rs) <= N.to_nat W)%nat; [|lia].
+  apply H. intros k Ck. apply max_end_covers in Ck. apply in_map_iff. exists (N.to_nat k). split; [lia|].
+  apply in_seq. lia.
+Qed.
+
+(** ** the theorems in their final form: only the layout rules and "no bit named twice" *)
+
+Lemma valid_field_max_end W f : valid_field W f = true -> max_end (ranges f) <= W.
+Proof.
+  intros Hv. pose proof (ff_bound W f (valid_field_facts W f Hv)) as H.
+  set (x := (count f - 1) * stride f) in *. lia.
+Qed.
+
+Lemma valid_total_le_storage W f :
+  base_ok W = true -> valid_field W f = true -> nodup_bits (ranges f) = true -> total (ranges f) <= storage W.
+Proof.
+  intros HW Hv Hn. pose proof (W_le_S W HW).
+  pose proof (total_le_base (ranges f) W (nodup_bits_ok _ Hn) (valid_field_max_end W f Hv)). lia.
+Qed.
+
+(** every getter the generator model emits (C01, C03, C04, C05, C08, C16) *)
+Theorem model_getter_correct c W f i raw :
+  base_ok W = true -> valid_field W f = true -> nodup_bits (ranges f) = true -> count f < 2 ^ 64 ->
+  i < count f -> raw < 2 ^ W ->
+  eval c (mk_env W raw i (VBool false)) (gen_getter (storage W) f) = Ok (present (f_ty f) (spec_get f i raw)).
+Proof.
+  intros HW Hv Hn Hc Hi Hraw. apply gen_getter_correct; try assumption. now apply valid_total_le_storage.
+Qed.
+
+(** every with_/set_ body the generator model emits (C02, C03, C04, C05, C08, C11, C16) *)
+Theorem model_setter_correct c W f i raw v :
+  base_ok W = true -> valid_field W f = true -> nodup_bits (ranges f) = true -> count f < 2 ^ 64 ->
+  i < count f -> raw < 2 ^ W -> v < 2 ^ ty_width (f_ty f) ->
+  eval c (mk_env W raw i (present (f_ty f) v)) (gen_setter (storage W) f)
+  = Ok (VInt (TU (storage W)) (spec_set f i v raw))
+  /\ spec_set f i v raw < 2 ^ W.
+Proof.
+  intros HW Hv Hn Hc Hi Hraw Hval. split.
+  - apply gen_setter_correct; try assumption; [now apply nodup_bits_ok|now apply valid_total_le_storage].
+  - unfold spec_set. apply scatter_lt; [exact Hraw|].
+    pose proof (valid_field_facts W f Hv) as F. unfold elem_ranges.
+    rewrite max_end_shift by (apply F). pose proof (ff_bound W f F).
+    assert (i * stride f <= (count f - 1) * stride f) by (apply N.mul_le_mono_r; lia). lia.
+Qed.
+
+(** ** any history of writes on the bodies of the generator model (C11, C12) *)
+
+Section ModelHistory.
+Variable c : bool.
+Variable d : decl.
+
+Definition model_step (raw : N) (o : hop) : res N :=
+  match eval c (mk_env (d_W d) raw (h_i o) (present (f_ty (h_f o)) (h_v o))) (gen_setter (storage (d_W d)) (h_f o)) with
+  | Ok (VInt _ r) => Ok r
+  | Ok _ => Stuck
+  | Panic => Panic
+  | Stuck => Stuck
+  end.
+
+Fixpoint model_run (raw : N) (ops : list hop) : res N :=
+  match ops with
+  | [] => Ok raw
+  | o :: ops' => bind (model_step raw o) (fun raw' => model_run raw' ops')
+  end.
+
+Theorem model_history ops : forall raw,
+  valid_decl d = true -> Forall (fun f => count f < 2 ^ 64) (d_fields d) ->
+  Forall (hop_ok d) ops -> raw < 2 ^ d_W d ->
+  model_run raw ops = Ok (run (map hop_wop ops) raw) /\ run (map hop_wop ops) raw < 2 ^ d_W d.
+Proof.
+  intros raw Hvd Hcnt. revert raw. unfold run.
+  unfold valid_decl in Hvd. apply andb_prop in Hvd. destruct Hvd as [Hvd _]. apply andb_prop in Hvd. destruct Hvd as [HW Hvf].
+  rewrite forallb_forall in Hvf. rewrite Forall_forall in Hcnt.
+  induction ops as [|o ops IH]; cbn [model_run map fold_left]; intros raw Hall Hraw; [auto|].
+  inversion Hall as [|o' ops' (Hin & Hset & Hdup & Hi & Hv) Hops]; subst.
+  assert (Hn : nodup_bits (ranges (h_f o)) = true).
+  { unfold dup_bits in Hdup. now destruct (nodup_bits (ranges (h_f o))). }
+  destruct (model_setter_correct c (d_W d) (h_f o) (h_i o) raw (h_v o) HW (Hvf _ Hin) Hn (Hcnt _ Hin) Hi Hraw Hv) as [Hs Hlt].
+  unfold model_step. rewrite Hs. cbn [bind]. now apply IH.
+Qed.
+End ModelHistory.
+
+Print Assumptions model_getter_correct.
+Print Assumptions model_setter_correct.
+Print Assumptions model_history.
